@@ -196,6 +196,15 @@ func checkLeaveSelector(m *Model, r *RuleResult, sel *ssa.Function, ctl bool) {
 	loops := naturalLoops(sel)
 	var bad []string
 	nNil, nElem := 0, 0
+	if handled, sbad := leaveSelectorBySearch(m, sel, p); handled {
+		if len(sbad) == 0 {
+			r.add(Obligation{Key: key, Pos: pos, Desc: "the selector returns nil only when the library search over the whole list finds nothing, and otherwise the first element that is a tree edge with negative cut value", Verdict: "holds", Control: ctl})
+		} else {
+			r.add(Obligation{Key: key, Pos: pos, Desc: "the pivot loop may stop only when no tree edge has a negative cut value", Verdict: "violation",
+				Detail: strings.Join(uniq(sbad), "; ") + ": the loop can terminate while a negative cut value remains, so the layering is not of minimum total length", Control: ctl})
+		}
+		return
+	}
 	eachInstr(sel, func(in ssa.Instruction) {
 		ret, ok := in.(*ssa.Return)
 		if !ok || len(ret.Results) != 1 {
@@ -248,7 +257,10 @@ func checkLeaveSelector(m *Model, r *RuleResult, sel *ssa.Function, ctl bool) {
 			return
 		}
 		tree, neg := false, false
-		for _, d := range transitiveControlDeps(ret.Block()) {
+		for _, d := range iterationControlDeps(ret.Block(), loops) {
+			if k := treeNegFact(d.If.Cond, u); k == "" || d.Branch != 0 {
+				bad = append(bad, "the returned edge must satisfy a further condition ("+d.If.Cond.String()+" at "+m.Pos(d.If.Cond.Pos())+"): a tree edge with negative cut value that fails it is passed over")
+			}
 			if d.Branch != 0 {
 				continue
 			}
@@ -364,4 +376,223 @@ func checkEnterSelector(m *Model, r *RuleResult, sel *ssa.Function, ctl bool) {
 		r.add(Obligation{Key: key, Pos: pos, Desc: "the enter edge must have minimum slack among all candidates", Verdict: "violation",
 			Detail: strings.Join(uniq(bad), "; ") + ": exchanging with a non-minimal edge makes other edges infeasible (shorter than their minimum length)", Control: ctl})
 	}
+}
+
+func isLoopHeadTest(loops []*loopInfo, iff *ssa.If) bool {
+	for _, l := range loops {
+		if l.Head == iff.Block() {
+			return true
+		}
+	}
+	return false
+}
+
+// treeNegFact classifies a condition on the edge value e: "tree" (load of e.IsInSpanningTree), "neg" (e.CutValue < 0), or "".
+func treeNegFact(c ssa.Value, e ssa.Value) string {
+	if ld, ok := c.(*ssa.UnOp); ok && ld.Op == token.MUL {
+		if fa, ok := ld.X.(*ssa.FieldAddr); ok {
+			base, steps := fieldChain(fa)
+			if base == e && locOfSteps(steps) == igEdge+".IsInSpanningTree" {
+				return "tree"
+			}
+		}
+	}
+	if bo, ok := c.(*ssa.BinOp); ok && bo.Op == token.LSS {
+		if k, isC := constInt(bo.Y); isC && k == 0 {
+			if ld, ok := bo.X.(*ssa.UnOp); ok && ld.Op == token.MUL {
+				if fa, ok := ld.X.(*ssa.FieldAddr); ok {
+					base, steps := fieldChain(fa)
+					if base == e && locOfSteps(steps) == igEdge+".CutValue" {
+						return "neg"
+					}
+				}
+			}
+		}
+	}
+	return ""
+}
+
+// predicateIsTreeNeg: the boolean function fn(e) is true exactly under e.IsInSpanningTree && e.CutValue < 0.
+func predicateIsTreeNeg(fn *ssa.Function) (bool, string) {
+	if fn == nil || len(fn.Params) != 1 || len(fn.Blocks) == 0 {
+		return false, "the search predicate is not a one-argument function"
+	}
+	e := ssa.Value(fn.Params[0])
+	// facts that hold when value v, computed/selected at the end of block at, is true
+	var truth func(v ssa.Value, at *ssa.BasicBlock, depth int) (facts map[string]bool, never bool, extra string)
+	truth = func(v ssa.Value, at *ssa.BasicBlock, depth int) (map[string]bool, bool, string) {
+		facts := map[string]bool{}
+		extra := ""
+		for _, d := range transitiveControlDeps(at) {
+			k := treeNegFact(d.If.Cond, e)
+			if k == "" || d.Branch != 0 {
+				extra = d.If.Cond.String()
+				continue
+			}
+			facts[k] = true
+		}
+		switch x := v.(type) {
+		case *ssa.Const:
+			if x.Value != nil && x.Value.String() == "false" {
+				return nil, true, ""
+			}
+			return facts, false, extra
+		case *ssa.Phi:
+			if depth > 3 {
+				return nil, false, "nested selection"
+			}
+			merged := map[string]bool{}
+			first := true
+			for i, ed := range x.Edges {
+				f, never, ex := truth(ed, x.Block().Preds[i], depth+1)
+				if never {
+					continue
+				}
+				if ex != "" {
+					return nil, false, ex
+				}
+				if first {
+					merged, first = f, false
+				} else if len(f) != len(merged) {
+					return nil, false, "alternatives with different conditions"
+				}
+			}
+			if first {
+				return nil, true, ""
+			}
+			return merged, false, ""
+		default:
+			if k := treeNegFact(v, e); k != "" {
+				facts[k] = true
+				return facts, false, extra
+			}
+			return nil, false, v.String()
+		}
+	}
+	nret := 0
+	for _, b := range fn.Blocks {
+		ret, ok := b.Instrs[len(b.Instrs)-1].(*ssa.Return)
+		if !ok || len(ret.Results) != 1 {
+			continue
+		}
+		f, never, extra := truth(ret.Results[0], b, 0)
+		if never {
+			continue
+		}
+		nret++
+		if extra != "" {
+			return false, "the search predicate also depends on " + extra
+		}
+		if !f["tree"] || !f["neg"] || len(f) != 2 {
+			return false, fmt.Sprintf("the search predicate is not `tree edge && cut value < 0` (tree: %v, negative: %v)", f["tree"], f["neg"])
+		}
+	}
+	if nret == 0 {
+		return false, "the search predicate is never true"
+	}
+	return true, ""
+}
+
+// leaveSelectorBySearch recognises  i := slices.IndexFunc(p, pred); if i < 0 { return nil }; return p[i]  (either polarity).
+func leaveSelectorBySearch(m *Model, sel *ssa.Function, p ssa.Value) (handled bool, bad []string) {
+	var search *ssa.Call
+	eachInstr(sel, func(in ssa.Instruction) {
+		c, ok := in.(*ssa.Call)
+		if !ok {
+			return
+		}
+		cal := c.Call.StaticCallee()
+		if cal == nil || cal.Pkg == nil && cal.Origin() == nil {
+			return
+		}
+		o := cal
+		if cal.Origin() != nil {
+			o = cal.Origin()
+		}
+		if o.Pkg != nil && o.Pkg.Pkg.Path() == "slices" && o.Name() == "IndexFunc" {
+			search = c
+		}
+	})
+	if search == nil {
+		return false, nil
+	}
+	if len(naturalLoops(sel)) > 0 {
+		return true, []string{"the selector mixes a library search with its own loop"}
+	}
+	arg0 := search.Call.Args[0]
+	if ct, ok := arg0.(*ssa.ChangeType); ok {
+		arg0 = ct.X
+	}
+	if arg0 != p {
+		bad = append(bad, "the library search does not scan the whole edge list it is given")
+	}
+	var pred *ssa.Function
+	switch f := search.Call.Args[1].(type) {
+	case *ssa.Function:
+		pred = f
+	case *ssa.MakeClosure:
+		pred, _ = f.Fn.(*ssa.Function)
+	case *ssa.ChangeType:
+		pred, _ = f.X.(*ssa.Function)
+	}
+	if ok, why := predicateIsTreeNeg(pred); !ok {
+		bad = append(bad, why)
+	}
+	nNil, nElem := 0, 0
+	eachInstr(sel, func(in ssa.Instruction) {
+		ret, ok := in.(*ssa.Return)
+		if !ok || len(ret.Results) != 1 {
+			return
+		}
+		// the test on the search result that guards this return
+		notFound := 0 // +1: guarded by "not found", -1: guarded by "found"
+		for _, d := range transitiveControlDeps(ret.Block()) {
+			bo, ok := d.If.Cond.(*ssa.BinOp)
+			if !ok || bo.X != ssa.Value(search) {
+				bad = append(bad, "a return depends on "+d.If.Cond.String())
+				continue
+			}
+			k, isC := constInt(bo.Y)
+			var nf bool // the condition being true means "not found"
+			switch {
+			case bo.Op == token.LSS && isC && k == 0, bo.Op == token.EQL && isC && k == -1, bo.Op == token.LEQ && isC && k == -1:
+				nf = true
+			case bo.Op == token.GEQ && isC && k == 0, bo.Op == token.NEQ && isC && k == -1, bo.Op == token.GTR && isC && k == -1:
+				nf = false
+			default:
+				bad = append(bad, "unrecognised test of the search result: "+bo.String())
+				continue
+			}
+			if nf == (d.Branch == 0) {
+				notFound = 1
+			} else {
+				notFound = -1
+			}
+		}
+		if c, isC := ret.Results[0].(*ssa.Const); isC && c.Value == nil {
+			nNil++
+			if notFound != 1 {
+				bad = append(bad, "nil is returned although the search may have found an edge")
+			}
+			return
+		}
+		nElem++
+		u, ok := ret.Results[0].(*ssa.UnOp)
+		okElem := false
+		if ok && u.Op == token.MUL {
+			if ia, ok := u.X.(*ssa.IndexAddr); ok && ia.X == p && ia.Index == ssa.Value(search) {
+				okElem = true
+			}
+		}
+		if !okElem {
+			bad = append(bad, "the returned edge is not the element the search found")
+		}
+		if notFound != -1 {
+			bad = append(bad, "an element is returned without testing that the search found one")
+		}
+	})
+	if nNil == 0 || nElem == 0 {
+		bad = append(bad, fmt.Sprintf("selector has %d nil returns and %d element returns", nNil, nElem))
+	}
+	return true, bad
 }
